@@ -28,8 +28,42 @@ def id_scenarios(rng, n):
         if rng.random() < .3:
             sc['ops'].append(gen.gen_apply_op(rng, sc['pool']['n_jobs'], with_failures=False))
             sc['pool'].pop('keep_alive', None)
+        elif rng.random() < .4:
+            # the setter path: a kept-alive pool whose settings change between two calls (with the same or another function)
+            sc['pool']['keep_alive'] = True
+            sc['same_func'] = rng.random() < .5
+            sc['relax_shape'] = True
+            extra = gen.gen_success_scenario(rng, n_ops=1)['ops'][0]
+            extra['init'] = extra['exit'] = True
+            cur = {k: bool(sc['pool'].get(k)) for k in ('pass_worker_id', 'shared_objects', 'use_worker_state')}
+            what = rng.choice(sorted(cur))
+            sc['ops'] += [{'op': 'set', 'what': what, 'value': not cur[what]}, extra]
+            for op in sc['ops']:
+                op.pop('worker_lifespan', None)
         scs.append(sc)
     return scs
+
+
+def setter_judge(chk, sc, o):
+    """after a setter changed a value, the functions of the next call are run by instances started after the change
+    (an instance passes the extras it was started with for its whole life)"""
+    if o.get('harness_error') or o.get('stuck'):
+        return
+    seen, changed = set(), False
+    cur = {k: bool(sc['pool'].get(k)) for k in ('pass_worker_id', 'shared_objects', 'use_worker_state')}
+    for opi, (op, oo) in enumerate(zip(sc['ops'], o.get('ops', []))):
+        if op['op'] == 'set' and op['what'] in cur:
+            if cur[op['what']] != op['value']:
+                cur[op['what']] = op['value']
+                changed = True
+            continue
+        mine = {c[3] for c in o.get('calls', []) if c[0] == opi and c[1] in ('task', 'init')}
+        if changed and mine & seen:
+            chk.violation('extras_follow_current_settings', {'scenario': sc}, {'op': opi, 'instances_started_before_the_change': sorted(mine & seen)[:4], 'settings_now': cur},
+                          'user functions receive exactly the extras that are enabled now', input_class='setter_extras')
+        if mine:
+            changed = False
+        seen |= {c[3] for c in o.get('calls', []) if c[0] == opi}
 
 
 def run(chk):
@@ -67,11 +101,16 @@ def run(chk):
             if got != exp:
                 chk.violation('extras_order', {'line': line}, {'received_first': got}, f'first positional arguments == {exp}', input_class='extras')
     scs = id_scenarios(rng, 240 if chk.tier == 'quick' else 4000)
-    run_scenarios(chk, 'whole calls under DetSim over all 8 subsets of extras', scs, {'C13'},
+    obs = run_scenarios(chk, 'whole calls under DetSim over all 8 subsets of extras', scs, {'C13'},
                   nontrivial=lambda sc, o: len(o.get('calls', [])) >= 2,
                   dist=lambda sc, o: {'extras': '%d%d%d' % (bool(sc['pool'].get('pass_worker_id')), bool(sc['pool'].get('shared_objects')), bool(sc['pool'].get('use_worker_state'))),
-                                      'start': sc['pool']['start_method'], 'apply': any(op['op'] == 'apply_batch' for op in sc['ops'])})
+                                      'start': sc['pool']['start_method'], 'apply': any(op['op'] == 'apply_batch' for op in sc['ops']),
+                                      'setter': any(op['op'] == 'set' for op in sc['ops'])})
+    for sc, o in zip(scs, obs):
+        setter_judge(chk, sc, o)
 
     def search():
-        run_scenarios(chk, 'search', id_scenarios(random.Random(chk.seed * 29 + 1), 800), {'C13'})
+        extra = id_scenarios(random.Random(chk.seed * 29 + 1), 800)
+        for sc, o in zip(extra, run_scenarios(chk, 'search', extra, {'C13'})):
+            setter_judge(chk, sc, o)
     return search
